@@ -139,10 +139,19 @@ type profRun struct {
 // With kill=true the profiler (and the tool) are SIGKILLed once the cache file
 // has stopped growing: that is the crash.
 func (r *profRig) run(mode string, kill bool, args ...string) (*profRun, error) {
+	return r.runLimited(mode, kill, 0, args...)
+}
+
+// runLimited is run with an optional file size limit (RLIMIT_FSIZE, bytes) for the profiler and its tool: writes
+// beyond it fail (the write-error fault).
+func (r *profRig) runLimited(mode string, kill bool, fsize int64, args ...string) (*profRun, error) {
 	ctx, cancel := context.WithTimeout(context.Background(), 30*time.Second)
 	defer cancel()
 	full := append(append([]string{}, args...), r.binary)
 	cmd := exec.CommandContext(ctx, r.profiler, full...)
+	if fsize > 0 {
+		cmd = exec.CommandContext(ctx, "prlimit", append([]string{fmt.Sprintf("--fsize=%d:%d", fsize, fsize), "--", r.profiler}, full...)...)
+	}
 	path := r.bindir
 	if mode == "" {
 		path = r.nogo
@@ -288,4 +297,46 @@ func namesOf(archName string, nums []int) []string {
 	}
 	sort.Strings(out)
 	return out
+}
+
+// async run: start returns at once; wait collects the result.
+type profAsync struct {
+	cmd    *exec.Cmd
+	so, se *bytes.Buffer
+	cancel context.CancelFunc
+}
+
+func (r *profRig) start(mode string, args ...string) (*profAsync, error) {
+	ctx, cancel := context.WithTimeout(context.Background(), 30*time.Second)
+	full := append(append([]string{}, args...), r.binary)
+	cmd := exec.CommandContext(ctx, r.profiler, full...)
+	cmd.Env = []string{"PATH=" + r.bindir, "HOME=" + r.home, "USER=verif", "FAKEGO_LISTING=" + r.listing, "FAKEGO_MODE=" + mode}
+	cmd.Dir = r.dir
+	cmd.SysProcAttr = &syscall.SysProcAttr{Credential: &syscall.Credential{Uid: profilerUid, Gid: profilerUid}, Setpgid: true}
+	a := &profAsync{cmd: cmd, so: &bytes.Buffer{}, se: &bytes.Buffer{}, cancel: cancel}
+	cmd.Stdout, cmd.Stderr = a.so, a.se
+	cmd.Cancel = func() error { return syscall.Kill(-cmd.Process.Pid, syscall.SIGKILL) }
+	cmd.WaitDelay = 2 * time.Second
+	if err := cmd.Start(); err != nil {
+		cancel()
+		return nil, err
+	}
+	return a, nil
+}
+
+func (a *profAsync) wait() (*profRun, error) {
+	defer a.cancel()
+	err := a.cmd.Wait()
+	res := &profRun{stdout: a.so.String(), stderr: a.se.String()}
+	if ee, ok := err.(*exec.ExitError); ok {
+		ws := ee.Sys().(syscall.WaitStatus)
+		if ws.Signaled() {
+			res.signaled = true
+		} else {
+			res.exit = ws.ExitStatus()
+		}
+	} else if err != nil {
+		return nil, err
+	}
+	return res, nil
 }
